@@ -1,4 +1,5 @@
 import XModel.ManagerInv
+import XModel.ManagerC03b
 /-!
 # C03 — removing or replacing a definition leaves no trace
 The four indices are a function of the surviving tasks (`Index.Inv`), preserved by `register'` (fresh
@@ -46,5 +47,23 @@ theorem C03_no_stale_ids (s : MState) (hi : MInv s) :
   ⟨fun u w hw => gOf_closed s hi u w hw, fun sd k hk => startOf_sub s hi sd k hk⟩
 
 end manager
+
+open Store Push Manager in
+/-- **regenerating the indices never changes behaviour**: an assignment to a plain location, in scope, has the same
+    outcome (contents, definitions) before and after `refresh()`, whatever legal iteration orders are used on the two
+    sides; a schedule legal for one index state is legal for any other index state of the same task table -/
+theorem C03_refresh_same_behaviour (sched1 sched2 : Sched) (s : MState) (p : Path) (v : Val) (hi : MInv s)
+    (hc : Consistent s) (hfz : s.frozen = false) (hnodef : lookDef s.defs p = none) (sc : Scope s p)
+    (hvs1 : ValidSched (gOf s.idx) (findTaskids s.idx (chainR p)) (sched1 (findTaskids s.idx (chainR p))))
+    (hvs2 : ValidSched (gOf (refresh s).1.idx) (findTaskids (refresh s).1.idx (chainR p))
+      (sched2 (findTaskids (refresh s).1.idx (chainR p))))
+    (s1 : MState) (hok : setValue sched1 s p v = (s1, none)) :
+    ∃ s2, setValue sched2 (refresh s).1 p v = (s2, none) ∧ s2.store = s1.store ∧ s2.defs = s1.defs :=
+  refresh_same_behaviour sched1 sched2 s p v hi hc hfz hnodef sc hvs1 hvs2 s1 hok
+
+open Manager in
+/-- the edges of the ordering graph are a function of the task table alone -/
+theorem C03_edges_from_tasks (s : MState) (hi : MInv s) (u w : Path) :
+    w ∈ gOf s.idx u ↔ sRt (s.defs.map MTask.toIdx) u w ≥ 1 := gOf_mem_iff s hi u w
 
 end Properties.C03
